@@ -341,10 +341,54 @@ def strat_marg(tier):
     )
 
 
+# ------------------------------------------------------------------------ part marg3d
+def check_marg3d(case, ctx):
+    """marginal_pdf of a conditional variable of a 3-D model (also the middle one): the argument
+    reordering of the nquad wrapper only matters for more than two variables"""
+    spec = case["model"]
+    dim = case["dim"]
+    for c in models.spec_classes(spec):
+        ctx.cls(c)
+    if spec[dim].get("conditional_on") is None:
+        cands = [k for k in range(len(spec)) if spec[k].get("conditional_on") is not None]
+        if not cands:
+            return
+        dim = cands[case["dim"] % len(cands)]
+    ctx.cls(f"marg3d_dim={dim}", f"position={'last' if dim == len(spec) - 1 else 'middle'}")
+    ctx.nontrivial(is_nontrivial(spec))
+    rng = refmodel.approx_range(spec)
+    lo, hi = rng[dim]
+    x = np.array([lo + case["frac"] * (hi - lo)], dtype=float)
+    ref, err = refint.marginal(spec, dim, float(x[0]), "pdf")
+    if not err <= 1e-7:
+        return
+    model = build.model(spec)
+    try:
+        with time_limit(CALL_BUDGET_S):
+            ok, got = ctx.call("marginal_pdf:3d", model.marginal_pdf, x.copy(), dim)
+    except CaseTimeout:
+        ctx.cls("timeout:marginal_pdf3d")
+        return
+    if ok:
+        got = np.asarray(got, dtype=float)
+        if got.shape != (1,) or not close(got, [ref], 1e-4, 1e-7).all():
+            ctx.violation(f"marginal_pdf:3d:dim{dim}:{refmodel.structure_name(spec)}", f"dim={dim} x={x.tolist()} got={got.tolist()} reference={ref!r} conditional_on={[l.get('conditional_on') for l in spec]}")
+
+
+def strat_marg3d(tier):
+    return st.builds(
+        lambda m, dim, fr: dict(model=m, dim=dim, frac=fr),
+        nonneg_model((3,)),
+        st.sampled_from([1, 1, 2]),
+        st.floats(0.15, 0.7),
+    )
+
+
 PARTS = [
     Part("pdf", check_pdf, strat_pdf, quick=4000, thorough=100000, min_nontrivial_frac=0.4),
     Part("norm", check_norm, strat_norm, quick=200, thorough=3000, shrink_quick=False),
     Part("cdf2d", check_cdf, strat_cdf2, quick=32, thorough=960, shrink=False, min_per_shard=1),
     Part("cdf3d", check_cdf, strat_cdf3, quick=0, thorough=16, shrink=False, min_per_shard=1),
+    Part("marg3d", check_marg3d, strat_marg3d, quick=16, thorough=320, shrink=False, min_per_shard=1),
     Part("marg", check_marg, strat_marg, quick=32, thorough=1500, shrink=False, min_per_shard=1),
 ]
